@@ -15,6 +15,7 @@
 //   T<n>         add component type named n    A<t>.<e> add component (t, e)       U<t>.<e> update it    D<t>.<e> delete it
 //   S<t>         subscribe to type t           N<t>   unsubscribe                  G<t>  list the components of type t
 //   V<e>.<n>.<ts> set vikja action n of entity e, timestamp ts (ns)               O<e>  add an odal asset instance to e
+//   M<p>         custom message addressed to participant p
 //
 // Modes:
 //   l3v -progs 'C,E,X1|J1' -setup 1,1 -run 2,2,2,1,1,...   one schedule of the race (unfinished threads then run to their end)
@@ -89,7 +90,7 @@ func parseOp(o string) (Op, error) {
 			nums = append(nums, n)
 		}
 	}
-	want := map[byte]int{'C': 0, 'L': 0, 'E': 0, 'J': 1, 'X': 1, 'P': 1, 'T': 1, 'S': 1, 'N': 1, 'G': 1, 'O': 1, 'A': 2, 'U': 2, 'D': 2, 'V': 3}
+	want := map[byte]int{'C': 0, 'L': 0, 'E': 0, 'J': 1, 'X': 1, 'P': 1, 'T': 1, 'S': 1, 'N': 1, 'G': 1, 'O': 1, 'M': 1, 'A': 2, 'U': 2, 'D': 2, 'V': 3}
 	n, ok := want[op.K]
 	if !ok || len(nums) != n {
 		return op, bad
@@ -179,6 +180,8 @@ func buildReq(conn, idx int, o Op) *Req {
 		r.Act = Action{Eid: o.A, Name: o.B, HasTs: true, Ts: o.Ts, Data: tag}
 	case 'O':
 		r.Kind, r.A, r.B = 201, o.A, tag
+	case 'M':
+		r.Kind, r.Rcpts, r.Body = 16, []uint32{o.A}, []byte{byte(conn), byte(idx)}
 	default:
 		return nil
 	}
